@@ -114,39 +114,52 @@ Variable C : codec S.
 Variable ERep : S -> list N -> list N -> Prop.
 (* an upper bound for what the encoder still has to emit if it gets no more input *)
 Variable mu : S -> nat.
+(* [efin st]: the library has started to finish the member (deflate: FINISH_STATE; lzma: the
+   encoder has seen LZMA_FINISH with all input consumed; ...).  From then on the documented
+   protocol of every one of the four libraries allows only further finishing calls without new
+   input ("must be called again with Z_FINISH and more output space but no more input data"),
+   so the contract promises nothing for other calls: *)
+Variable efin : S -> Prop.
 Variable resets : bool.
+
+Definition eadm (st : S) (inp : list N) (fl : flush) : Prop := efin st -> fl = FlushFull /\ inp = [].
 
 Definition eafter_end (st : S) : S := if resets then c_reset C st else st.
 
 Record enc_contract : Prop := mkEnc {
-  ec_bounds : forall st fed em inp cap fl, ERep st fed em ->
+  ec_bounds : forall st fed em inp cap fl, ERep st fed em -> eadm st inp fl ->
       let r := c_step C st inp cap fl in
       l_cons r <= length inp /\ length (l_out r) <= cap;
-  ec_step : forall st fed em inp cap fl, ERep st fed em ->
+  ec_step : forall st fed em inp cap fl, ERep st fed em -> eadm st inp fl ->
       let r := c_step C st inp cap fl in
       ok_or_buf (l_stat r) ->
       ERep (l_st r) (fed ++ firstn (l_cons r) inp) (em ++ l_out r);
   (* END only on a finishing flush, with all input consumed and the member complete *)
-  ec_end : forall st fed em inp cap fl, ERep st fed em ->
+  ec_end : forall st fed em inp cap fl, ERep st fed em -> eadm st inp fl ->
       let r := c_step C st inp cap fl in
       l_stat r = LEnd ->
       fl = FlushFull /\ l_cons r = length inp /\
-      Member (em ++ l_out r) (fed ++ inp) /\ ERep (eafter_end (l_st r)) [] [];
+      Member (em ++ l_out r) (fed ++ inp) /\ ERep (eafter_end (l_st r)) [] [] /\
+      ~ efin (eafter_end (l_st r));
+  (* the library only starts finishing under a finishing flush, once all input is consumed *)
+  ec_fin : forall st fed em inp cap fl, ERep st fed em -> eadm st inp fl ->
+      let r := c_step C st inp cap fl in
+      ok_or_buf (l_stat r) -> efin (l_st r) -> fl = FlushFull /\ l_cons r = length inp;
   (* with room, and input or a finishing flush, the encoder moves *)
-  ec_progress : forall st fed em inp cap fl, ERep st fed em ->
+  ec_progress : forall st fed em inp cap fl, ERep st fed em -> eadm st inp fl ->
       let r := c_step C st inp cap fl in
       inp <> [] \/ fl = FlushFull -> 0 < cap -> ok_or_buf (l_stat r) ->
       0 < l_cons r + length (l_out r);
-  ec_no_err : forall st fed em inp cap fl, ERep st fed em ->
+  ec_no_err : forall st fed em inp cap fl, ERep st fed em -> eadm st inp fl ->
       l_stat (c_step C st inp cap fl) <> LErr;
   (* output produced without consuming input comes out of a finite backlog *)
-  ec_drain : forall st fed em inp cap fl, ERep st fed em ->
+  ec_drain : forall st fed em inp cap fl, ERep st fed em -> eadm st inp fl ->
       let r := c_step C st inp cap fl in
       ok_or_buf (l_stat r) -> l_cons r = 0 -> mu (l_st r) + length (l_out r) <= mu st
 }.
 
 Definition enc_never_buf : Prop :=
-  forall st fed em inp cap fl, ERep st fed em -> l_stat (c_step C st inp cap fl) <> LBuf.
+  forall st fed em inp cap fl, ERep st fed em -> eadm st inp fl -> l_stat (c_step C st inp cap fl) <> LBuf.
 
 End Enc.
 
@@ -183,7 +196,9 @@ Record ddrv_contract : Prop := mkDDrv {
       (fl = FlushNone \/ fl = FlushFull) ->
       x_stat (drv d inp cap fl) <> XErr;
   dd_prefix : forall d fed del x p, DR d fed del -> Member (fed ++ x) p -> prefix del p;
-  dd_nil : forall d del, DR d [] del -> del = []
+  dd_nil : forall d del, DR d [] del -> del = [];
+  (* the driver is never beyond the end of a member without having said END *)
+  dd_no_overrun : forall d fed del m p, DR d fed del -> Member m p -> prefix m fed -> m = fed
 }.
 End DDrv.
 
@@ -192,22 +207,28 @@ Variable D : Type.
 Variable drv : driver D.
 Variable ER : D -> list N -> list N -> Prop.
 Variable emu : D -> nat.
+(* the driver's library has started to finish the member: only finishing calls without new input
+   are covered from then on *)
+Variable dfin : D -> Prop.
+
+Definition dadm (d : D) (inp : list N) (fl : flush) : Prop := dfin d -> fl = FlushFull /\ inp = [].
 
 Record edrv_contract : Prop := mkEDrv {
-  ed_main : forall d fed em inp cap fl, ER d fed em -> 0 < cap ->
+  ed_main : forall d fed em inp cap fl, ER d fed em -> dadm d inp fl -> 0 < cap ->
       fl = FlushNone \/ fl = FlushFull ->
       let r := drv d inp cap fl in
       x_stat r <> XFuel /\ x_stat r <> XErr /\
       x_cons r <= length inp /\ length (x_out r) <= cap /\
       (x_stat r <> XEnd ->
          ER (x_st r) (fed ++ firstn (x_cons r) inp) (em ++ x_out r) /\
+         (dfin (x_st r) -> fl = FlushFull /\ x_cons r = length inp) /\
          (* progress, lexicographically: input is consumed, or the backlog shrinks *)
          (inp <> [] \/ fl = FlushFull ->
           0 < x_cons r + length (x_out r) /\
           (x_cons r = 0 -> emu (x_st r) + length (x_out r) <= emu d))) /\
       (x_stat r = XEnd -> inp <> [] \/ fed <> [] \/ em <> [] ->
          fl = FlushFull /\ x_cons r = length inp /\
-         Member (em ++ x_out r) (fed ++ inp) /\ ER (x_st r) [] [])
+         Member (em ++ x_out r) (fed ++ inp) /\ ER (x_st r) [] [] /\ ~ dfin (x_st r))
 }.
 End EDrv.
 
